@@ -19,6 +19,10 @@ CLAIMED['C02'] = dict(
    text='Machine-checked theorems about the post-validation block of the wrappers regenerated from _contracts.py: for every registry, value, arguments, world and fuel, the value is returned / yielded iff every post accepts it and every ensure accepts it with the original arguments (reference run_posts), otherwise the first failure is raised; the switch is restored; a rejected yielded value ends the wrapper loop so the inner generator is never resumed. Tied to the code by regeneration, by differential execution of random post/ensure stacks, result values and yield sequences, and by an independent monitor.',
    design_ref='DESIGN.md 4.2', note=GENERIC_NOTE,
    technique='Coq proof over wrappers regenerated from source + differential correspondence + monitor')
+CLAIMED['C03'] = dict(
+   text='Machine-checked theorems about the try/except/finally around the body call of the wrappers regenerated from _contracts.py, for arbitrary class tables: ContractError and non-Exception BaseException propagate as the same object; an exception admitted by the raises contracts and by the reason contracts registered for its type propagates as the same object; otherwise it is replaced by the validator-built violation chained to the original; and RaisesValidator._validate admits exactly instances of declared classes (subclass-aware). Proven for sync, async and per generator step. Tied to the code by regeneration, by differential execution on random hierarchies/declarations/stackings, a monitor, and a three-way runtime / linter (both back-ends) / deal.cases comparison of admitted exception types.',
+   design_ref='DESIGN.md 4.3', note=GENERIC_NOTE + ' The agreement of linter and deal.cases with the runtime is decided by exhaustive differential testing over builtin classes, not by a theorem (the linter model of CheckRaises is not generated yet).',
+   technique='Coq proof over wrappers regenerated from source + differential correspondence + monitor')
 UNCLAIMED_REASON = 'not claimed yet: the Coq model and check for this property are still under construction in this round (no technique switch intended)'
 checks, na = [], []
 for p in props:
